@@ -31,7 +31,18 @@ def gen_case(case):
     srcs = []
     meta = {"solid_only": solid_only}
     mode = r.random()
-    if mode < 0.07:
+    if mode < 0.06:
+        from vf.checks import c06
+
+        meta["mode"] = "grouped-reuse"
+        srcs.extend(c06.grouped_reuse_set(r, r.choice([100, 128]), single_copy_glyph=True))
+        cfg.pop("transform", None)
+        if cfg.get("reuse_tolerance", 0.1) in (-1, 0.0) and r.random() < 0.8:
+            cfg["reuse_tolerance"] = 0.1
+        meta["solid_only"] = False  # groups: the z-order / image claim does not apply, the placement claim does
+        if r.random() < 0.5:
+            cfg["color_format"] = "glyf"
+    elif mode < 0.13:
         meta["mode"] = "same-body-other-viewbox"
         srcs.extend(svggen.same_body_other_viewbox_set(r, r.randint(2, 4), pal=pal))
         if cfg.get("reuse_tolerance", 0.1) in (-1, 0.0) and r.random() < 0.7:
